@@ -63,7 +63,7 @@ func CheckC03(run *Run) {
 	run.Proof = CheckProofs("C03")
 	run.Prepare()
 	reqs := RouteCatalogue()
-	reqs = append(reqs, SharedRouteRequest())
+	reqs = append(reqs, SharedRouteRequest(), DoubleSlashRequest(), NoSlashRequest())
 	n := 8
 	if run.Tier == "thorough" {
 		n = 400
@@ -197,7 +197,7 @@ func CheckC03(run *Run) {
 			ri++
 		}
 	}
-	vs, err := CoqRun(run.WorkDir, "c03ops", imports, defs.String(), "predict_C03_ops", svcCases, 16)
+	vs, err := CoqRun(run.WorkDir, "c03ops", imports, defs.String(), "list rpc_info", "predict_C03_ops", svcCases, 16)
 	if err != nil {
 		run.Fatal("model evaluation: %v", err)
 	}
@@ -205,7 +205,7 @@ func CheckC03(run *Run) {
 		p.c.Apply(vs[i])
 		run.Results = append(run.Results, p.c)
 	}
-	vs, err = CoqRun(run.WorkDir, "c03rpc", imports, defs.String(), "predict_C03_at", perRPC, 16)
+	vs, err = CoqRun(run.WorkDir, "c03rpc", imports, defs.String(), "(list rpc_info * nat)", "predict_C03_at", perRPC, 16)
 	if err != nil {
 		run.Fatal("model evaluation: %v", err)
 	}
